@@ -127,12 +127,17 @@ class Hooked(RawDom):
 
 
 @dataclass
+class HookedSub(Hooked):
+    """inherits the hook pair from its parent class"""
+
+
+@dataclass
 class NestH(RawDom):
     h: Hooked = None
     y: Any = None
 
 
-SHAPES = ["FlatRaw", "FlatReg", "FlatTyme", "FlatIce", "Nest1", "Nest2", "IceNest", "RegNest", "NestE", "SubNest", "Under", "NestU", "Hooked"]
+SHAPES = ["FlatRaw", "FlatReg", "FlatTyme", "FlatIce", "Nest1", "Nest2", "IceNest", "RegNest", "NestE", "SubNest", "Under", "NestU", "Hooked", "HookedSub"]
 # (NestH, a hooked class nested in another, is not in the set: hio documents the _datify hook for nested classes and the _dictify hook
 #  for the object itself only, so what a nested hook pair should do is not fixed by the documentation)
 FORMATS = [("json", "_asjson", "_fromjson"), ("cbor", "_ascbor", "_fromcbor"), ("mgpk", "_asmgpk", "_frommgpk")]
@@ -326,6 +331,8 @@ def build(shape, t, s):
         return NestU(u=Under(_id=s, v=t), y=t)
     if shape == "Hooked":
         return Hooked(a=t, b=s)
+    if shape == "HookedSub":
+        return HookedSub(a=s, b=t)
     if shape == "NestH":
         return NestH(h=Hooked(a=t, b=s), y=s)
     raise AssertionError(shape)
